@@ -166,7 +166,7 @@ theorem step_sim (s : Store) (inv : Inv s) (sp : SpecSt) (sim : Sim s sp) (op : 
     obtain ⟨_, c1, t1, p1⟩ := vacuum_scan s inv.wf
     exact ⟨_, rfl, sim.of_scan c1 t1 (fun t => List.Perm.of_eq (p1 t))⟩
   | reopen =>
-    obtain ⟨s', r1, _, _, c1, t1, p1⟩ := reopen_inv s inv g
+    obtain ⟨s', r1, _, _, c1, t1, p1⟩ := reopen_inv s inv
     exact ⟨s', by simp [stepUp, r1, SpecSt.step], sim.of_scan c1 t1 (fun t => List.Perm.of_eq (p1 t))⟩
   | insert n parts =>
     have ha := sim.abs n
